@@ -1182,6 +1182,12 @@ package cose
 //@ spec paddedTo(v any, x []byte, n Int) Bool = any_isbytes(v) && len(anybytes(v)) == n && len(x) <= n
 //@       && bytes(anybytes(v)[n - len(x):]) == bytes(x) && (forall i Int :: 0 <= i && i < n - len(x) ==> anybytes(v)[i] == 0)
 
+// the common parameters of the emitted COSE_Key map are the Key's fields (a Params entry never replaces them)
+//@ spec commonFields(k *Key, m map[any]any) Bool = m != nil && int64(1) in m && m[int64(1)] is KeyType && m[int64(1)].(KeyType) == k.Type
+//@         && (k.Algorithm != 0 ? (int64(3) in m && m[int64(3)] is Algorithm && m[int64(3)].(Algorithm) == k.Algorithm) : !(int64(3) in m))
+//@         && (k.ID == nil ==> !(int64(2) in m)) && (k.Ops == nil ==> !(int64(4) in m)) && (k.BaseIV == nil ==> !(int64(5) in m))
+//@         && (k.ID != nil ==> int64(2) in m && m[int64(2)] is []byte) && (k.BaseIV != nil ==> int64(5) in m && m[int64(5)] is []byte)
+
 //@ func (*Key).MarshalCBOR
 //@   requires nonnil: k != nil
 //@   ensures out [C08, C14]: (err == nil ==> fresh(result) && len(result) > 0) && (err != nil ==> result == nil)
@@ -1198,7 +1204,9 @@ package cose
 //@         ==> arg1 is map[any]any && int64(-2) in arg1.(map[any]any) && arg1.(map[any]any)[int64(-2)] == k.Params[int64(-2)]
 //@   callsite full_y [C14] EncMode.Marshal#1: int64Labels(k.Params) && k.Type == 2 && sizeOf(pCurve(k.Params)) > 0 && len(pBytes(k.Params, -3)) == sizeOf(pCurve(k.Params))
 //@         ==> arg1 is map[any]any && int64(-3) in arg1.(map[any]any) && arg1.(map[any]any)[int64(-3)] == k.Params[int64(-3)]
+//@   loop 1 invariant common_kept [C08]: commonFields(k, tmp)
 //@   callsite common [C08, C14, C15] EncMode.Marshal#1: arg1 is map[any]any && int64(1) in arg1.(map[any]any)
+//@   callsite common_fields [C08] EncMode.Marshal#1: arg1 is map[any]any && commonFields(k, arg1.(map[any]any))
 
 //@ func KeyOpFromString
 //@   ensures known [C15]: result1 ==> result0 >= 1 && result0 <= 8
